@@ -194,6 +194,36 @@ def run_learner(case, ctx):
                                   "clone (%s on %s)" % (real_method, bname), cfg=cfg)
                 if exp.shape[1] > 1:
                     ctx.nontriv("learner", cfg, bname)
+            # ---- call sequence on the same wrapper: refused transform, refused fit, fit on other rows (other
+            # number of classes / other width): still transparent, still trained as a direct fit
+            X2, y2 = data(rng, kind, k=2 if kind == "clf" else None)
+            if case["sub"] % 2:
+                X2 = numpy.hstack([X2, X2[:, :1] * 0.5 + 1])      # another width
+            for refused in (lambda: wr.transform(numpy.ones((2, X.shape[1] + 2))),
+                            lambda: wr.fit(X2[:5], y2[:3]) if kind != "tr" else wr.fit(numpy.ones((3, 2, 2)))):
+                try:
+                    refused()
+                except Exception:
+                    ctx.hit("learner.sequence.refused")
+            try:
+                numpy.random.seed(5)
+                wr.fit(X2, y2) if kind != "tr" else wr.fit(X2)
+                got = wr.transform(X2[:9])
+                direct2 = clone(mk())
+                numpy.random.seed(5)
+                direct2.fit(X2, y2) if kind != "tr" else direct2.fit(X2)
+                ctx.hit("learner.sequence")
+                exp = as2d(getattr(wr.model, real_method)(X2[:9]))
+                ref = as2d(getattr(direct2, real_method)(X2[:9]))
+                if got.shape != exp.shape or not numpy.array_equal(got, exp):
+                    ctx.violation(K + "transform-differs/after-refit", "after refused calls and a fit on other rows, "
+                                  "transform is not the wrapped model's %s" % real_method, cfg=cfg)
+                elif ref.shape != exp.shape or not numpy.allclose(ref, exp, rtol=1e-12, atol=1e-12):
+                    ctx.violation(K + "not-trained-as-direct-fit/after-refit", "after refused calls and a fit on other "
+                                  "rows the wrapped model differs from a directly fitted clone", cfg=cfg)
+            except Exception as e:
+                ctx.violation(K + "sequence-raised/%s" % type(e).__name__, "refused transform, refused fit, fit on other "
+                              "rows, transform: %s" % str(e)[:150], cfg=cfg)
             ctx.cls("model=" + name)
         # fit parameters (sample_weight) reach the wrapped model through fit and through fit_transform,
         # with and without a target
@@ -233,6 +263,7 @@ def run_learner(case, ctx):
 
 
 def run_stacking(case, ctx):
+    from sklearn.base import clone
     from mlinsights.sklapi import SkBaseTransformStacking, SkBaseTransformLearner
     rng = numpy.random.RandomState(case["sub"] % (2 ** 31))
     M = models()
@@ -285,6 +316,42 @@ def run_stacking(case, ctx):
             if got.shape != exp.shape or not numpy.array_equal(got, exp):
                 ctx.violation(K + "transform-not-hstack/%s" % bname, "transform on %s: shape %r, hstack of the "
                               "members' outputs has %r" % (bname, got.shape, exp.shape), cfg=cfg)
+        # ---- call sequence on the same stacking: refused transform, fit on other rows, transform
+        X2, y2 = data(rng, kind, k=3 if kind == "clf" else None)
+        try:
+            st.transform(numpy.ones((2, X.shape[1] + 2)))
+        except Exception:
+            ctx.hit("stacking.sequence.refused")
+        try:
+            numpy.random.seed(3)
+            st.fit(X2, y2)
+            got = st.transform(X2[:9])
+            parts = []
+            for orig in members:
+                base = orig.model if isinstance(orig, SkBaseTransformLearner) else orig
+                if hasattr(base, "transform") and not isinstance(orig, SkBaseTransformLearner):
+                    parts.append(as2d(base.transform(X2[:9])))
+                else:
+                    parts.append(as2d(getattr(base, method)(X2[:9])))
+            exp = numpy.hstack(parts)
+            ctx.hit("stacking.sequence")
+            if got.shape != exp.shape or not numpy.array_equal(got, exp):
+                ctx.violation(K + "transform-not-hstack/after-refit", "after a refused transform and a fit on other "
+                              "rows transform is not the hstack of the members' outputs", cfg=cfg)
+            fresh = [clone(M[n][0]()) for n in chosen]
+            for f, orig in zip(fresh, members):
+                base = orig.model if isinstance(orig, SkBaseTransformLearner) else orig
+                numpy.random.seed(3)
+                f.fit(X2, y2)
+                fm = "transform" if (hasattr(f, "transform") and not isinstance(orig, SkBaseTransformLearner)) \
+                    else method
+                a, b = as2d(getattr(f, fm)(X2[:9])), as2d(getattr(base, fm)(X2[:9]))
+                if a.shape != b.shape or not numpy.allclose(a, b, rtol=1e-12, atol=1e-12):
+                    ctx.violation(K + "not-trained-as-direct-fit/after-refit", "a member (%s) refitted through the "
+                                  "stacking differs from a directly fitted clone" % type(base).__name__, cfg=cfg)
+                    break
+        except Exception as e:
+            ctx.violation(K + "sequence-raised/%s" % type(e).__name__, str(e)[:150], cfg=cfg)
         if len(members) >= 2:
             ctx.nontriv("stack", cfg)
         ctx.cls("stack-size=%d" % len(members))
